@@ -34,6 +34,13 @@ FALSY_POOL = [False, 0, 0.0, "", [], {}, None]
 STRING_POOL = ["it's", 'say "hi"', "back\\slash", "new\nline", "tab\t", "'''", '"""', "é", "\x00", "\\", "'\"",
                "{curly}", "%s", "a" * 90]
 
+ANCHORS = [
+    "statham.schema.helpers:custom_repr_args",
+    "statham.schema.helpers:Args.__repr__",
+    "statham.schema.property:_Property.__repr__",
+    "statham.schema.elements.base:Element.__repr__",
+]
+
 
 def plan(tier):
     if tier == "quick":
